@@ -87,7 +87,7 @@ def run_symbolic(calls, x, VE):
         except LookupError:
             outs.append(Out('skip'))
             continue
-        mod = importlib.import_module(c.mod)
+        mod = E.load_file(c.mod, c.file) if getattr(c, 'file', None) and c.mod not in sys.modules else importlib.import_module(c.mod)
         f = mod
         for part in c.func.split('.'):
             f = getattr(f, part)
@@ -132,7 +132,10 @@ def steps_for(calls, xs):
             return enc_arg(e)
         args = [enc2(enc(a)) for a in c.args]
         kwargs = {k: enc2(enc(a)) for k, a in c.kwargs.items()}
-        out.append({'mod': c.mod, 'func': c.func, 'args': args, 'kwargs': kwargs, 'requires': list(c.requires)})
+        d = {'mod': c.mod, 'func': c.func, 'args': args, 'kwargs': kwargs, 'requires': list(c.requires)}
+        if getattr(c, 'file', None):
+            d['file'] = c.file
+        out.append(d)
     return out
 
 
